@@ -218,6 +218,8 @@ type SMOptions struct {
 	SlowUpdate   time.Duration
 	SlowPrepare  time.Duration // PrepareSnapshot dwells after fixing its view
 	SlowSync     time.Duration
+	// OnApply is called for every user entry inside Update, before the result is returned
+	OnApply func(host int, id uint64)
 	RaceCanary   bool // keep the deliberately unsynchronised field (race detector oracle)
 	RecordApply  bool
 	OpenFailStop bool
@@ -539,6 +541,9 @@ func (s *SMInst) update(ents []sm.Entry) []sm.Entry {
 		if !ok {
 			ents[i].Result = sm.Result{Value: 0}
 			continue
+		}
+		if s.opt.OnApply != nil {
+			s.opt.OnApply(s.Host, id)
 		}
 		s.data.Lists[key] = append(s.data.Lists[key], id)
 		s.data.Applied = ents[i].Index
